@@ -101,9 +101,9 @@ CLAIMED = {
     technique="Coq proof (field/ring over Q, permutation lemmas) over hand-written Gallina model + vm_compute correspondence check"),
  "C13": dict(
     category="proof",
-    text="Coq theorem C13_renumber proves, for any number of aligned axes, any ascending set of dropped aligned indices and any per-member axis order, that the loop of _update_aligned_axes (per-member copy of the index array) yields exactly the closed-form renumbering 'same physical axes lowered by the number of dropped member axes below them'; C13_drops_wellformed shows every item meets its hypotheses. The whole edit state machine (slice, select, copy, pop, del, update, refused ops) is an executable Gallina model whose every reached state is compared with the implementation's (keys, shapes, aligned axes, unchanged-after-refusal) and checked against the boolean invariant inv inside Coq; invariant preservation by induction over histories is NOT yet proved (partial: checked per reached state by vm_compute, not by theorem).",
+    text="Coq theorems: C13_history (after ANY sequence, of any length, of supported edits - numeric slicing, selection by distinct keys, pop / del, update with a consistent set of members, copy - the invariant holds: keys distinct, every member's aligned axes are distinct axes that exist on that member, the i-th aligned axes of all members have equal length, no aligned axes listed when the collection has none; a refused edit leaves the collection as it was), C13_edit (one edit), C13_member_slice (a numerically sliced member: the renumbered aligned axes are distinct axes of the SLICED member and the lengths along them depend only on the old aligned lengths and the items), C13_inv_reflects (the boolean invariant evaluated on every reached state decides that proposition), C13_renumber (the loop of _update_aligned_axes equals the closed form 'same physical axes lowered by the number of dropped member axes below them', for any number of aligned axes, any ascending drops, any per-member order), C13_drops_wellformed. Tied to /repo by an exact correspondence check of the whole edit state machine (slice, select, copy, pop, del, update, refused operations) on every reached state (keys, shapes, aligned axes, unchanged-after-refusal), with numpy integers as indices in every fourth case and every collection an edit was derived from re-observed after later edits, plus a direct oracle (physical-axis identity via coded data).",
     design_ref="DESIGN.md §5.13",
-    note="Trusted: Coq kernel + VM; Model/M_Collection.v transcription; M_Slicing for member shapes; harness + direct oracle (physical-axis identity via coded data). NDCubeSequence members are not generated. Invariant-by-induction theorem missing (see text).",
+    note="Trusted: Coq kernel + VM; Model/M_Collection.v transcription; M_Slicing for member shapes; harness + direct oracle. NDCubeSequence members are not generated; items with None / Ellipsis are outside the history theorem (premise no_special).",
     technique="Coq proof over hand-written Gallina model + vm_compute correspondence check over edit histories"),
  "C11": dict(
     category="proof",
